@@ -31,6 +31,7 @@ type Conn struct {
 	ReadCalls int
 	OnWrite  func(c *Conn, b []byte) // called (without the lock) after each Write
 	OnClose  func()
+	OnWait   func(c *Conn, readCall int) // called once per Read that finds the queue empty (real mode), before it waits
 	Remote   string
 	gen      int
 }
@@ -87,6 +88,7 @@ func (c *Conn) Read(b []byte) (int, error) {
 	c.mu.Lock()
 	defer c.mu.Unlock()
 	c.ReadCalls++
+	notified := false
 	for {
 		if c.closed {
 			return 0, net.ErrClosed
@@ -115,6 +117,14 @@ func (c *Conn) Read(b []byte) (int, error) {
 		}
 		if !c.deadline.IsZero() && !time.Now().Before(c.deadline) {
 			return 0, os.ErrDeadlineExceeded
+		}
+		if c.OnWait != nil && !notified {
+			notified = true
+			f, n := c.OnWait, c.ReadCalls
+			c.mu.Unlock()
+			f(c, n)
+			c.mu.Lock()
+			continue
 		}
 		// wait for data, close or the deadline
 		if !c.deadline.IsZero() {
